@@ -162,9 +162,17 @@ func (r *sdRun) event(point string) {
 		return // the component is still being constructed
 	}
 	n := atomic.AddInt64(&r.counter, 1)
-	if int(n) == r.k+1 && atomic.CompareAndSwapInt32(&r.trigger, 0, 1) {
-		r.atPoint = point
-		r.closeWG.Add(1)
+	// the decision and the Add are one step under r.mu, so that finish() cannot start waiting in between
+	fire := false
+	if int(n) == r.k+1 {
+		r.mu.Lock()
+		if r.trigger == 0 {
+			r.trigger, r.atPoint, fire = 1, point, true
+			r.closeWG.Add(1)
+		}
+		r.mu.Unlock()
+	}
+	if fire {
 		go func() {
 			defer r.closeWG.Done()
 			r.closer()
@@ -193,9 +201,14 @@ func (r *sdRun) closeBegun() {
 
 // finish triggers the closer if no crash point was reached, and waits for it by quiescence.
 func (r *sdRun) finish() (ok, stuck bool) {
-	if atomic.CompareAndSwapInt32(&r.trigger, 0, 1) {
-		r.atPoint = "end"
+	r.mu.Lock()
+	fire := r.trigger == 0
+	if fire {
+		r.trigger, r.atPoint = 1, "end"
 		r.closeWG.Add(1)
+	}
+	r.mu.Unlock()
+	if fire {
 		go func() {
 			defer r.closeWG.Done()
 			r.closer()
@@ -212,6 +225,9 @@ func (r *sdRun) finish() (ok, stuck bool) {
 			case <-done:
 				return
 			case <-time.After(20 * time.Millisecond):
+			}
+			if r.sc.Variant == "racing-users" {
+				continue // the events come from goroutines that do not depend on the closing call: no bound in steps
 			}
 			if r.sink.total()-startEvents > 4000 {
 				close(livelock)
@@ -1126,11 +1142,17 @@ func sdClient(r *sdRun, rng *rand.Rand) {
 		for g := 0; g < 2; g++ {
 			go func() {
 				defer users.Done()
-				for {
+				for it := 0; ; it++ {
 					select {
 					case <-stop:
 						return
 					default:
+					}
+					if r.sc.Variant == "racing-users" {
+						if it > 800 {
+							return // bounded, so that a Close that never returns ends in quiescence
+						}
+						time.Sleep(50 * time.Microsecond)
 					}
 					client.Partitions("t")
 					client.Leader("t", 0)
